@@ -39,7 +39,7 @@ def generate(rng, tier):
     pool = []
     for i in range(ncompat):
         pool.append({"kind": "ok", "tchans": rng.choice([2, 3, 4]), "t_start": 1000.0 * i + rng.choice([0.0, 5.0]),
-                     "flip": rng.random() < 0.15})
+                     "flip": rng.random() < 0.15, "via": rng.choice(["init", "init", "from_data", "copy"])})
     for attr in ("df", "dt", "fchans", "fmin"):
         if rng.random() < 0.7:
             pool.append({"kind": "bad", "attr": attr, "tchans": 3, "t_start": 77.0})
@@ -153,7 +153,16 @@ def build_pool(sc):
                     kw["fch1"] = g["fch1"] + g["df"]      # keep fmin equal
             elif a == "fmin":
                 kw["fch1"] = g["fch1"] + 3 * g["df"]
-        out.append(stg.Frame(**kw))
+        via = p.get("via", "init")
+        if via == "from_data" and p["kind"] == "ok":
+            # the alternative constructor, metadata argument omitted
+            fr = stg.Frame.from_data(kw["df"], kw["dt"], kw["fch1"], kw["ascending"], np.zeros((kw["tchans"], kw["fchans"])),
+                                     seed=kw["seed"], t_start=kw["t_start"])
+        elif via == "copy" and p["kind"] == "ok":
+            fr = stg.Frame(**kw).copy()
+        else:
+            fr = stg.Frame(**kw)
+        out.append(fr)
     return out
 
 
